@@ -580,6 +580,8 @@ def run(ctx):
     if flt:
         only = only or 'filtered'
         hists = [h for h in hists if any(f in '%s:%s=%s' % c for c in h['comps'] for f in flt.split(','))]
+        if os.environ.get('C48_MAXH'):
+            hists = hists[-int(os.environ['C48_MAXH']):]
     wd = ctx.workdir('hist')
     order = list(range(len(hists)))
     if ctx.seed and order:
